@@ -270,12 +270,16 @@ def apply_history(v, case, hist, cached, cache_type, scratch, tag, desc_w):
                 probes.log_clear(plog)
                 try:
                     with quiet():
-                        r2 = P(out, **K)
+                        # (repeated in the form of the call itself: run(full_output=True) walks the whole upstream, a plain
+                        # call returns at the first hit)
+                        r2 = P.run(out, full_output=True, kwargs=dict(K))[out] if op["full"] else P(out, **K)
                 except Exception as e:  # noqa: BLE001
                     v.bad(exc_sig(e, f"cached-raises-on-repeat/{cache_type}"), f"repeat of a successful call raised {exc_msg(e)}", **w)
                     return hits
                 again = [c["f"] for c in probes.log_read(plog)]
                 v.count("immediate_repeats")
+                if op["full"]:
+                    v.count("immediate_repeats_with_full_output")
                 if r2 != q[1]:
                     v.bad(f"diverge-on-repeat/{last_mut}/{ctx}", f"repeat returned {r2!r:.160}, expected {q[1]!r:.160}", **w)
                     return hits
@@ -599,8 +603,8 @@ def finalize(agg, tier, seed):
         floors.append("fewer than 30 cases with functions returning None / falsy values")
     if c.get("histories_with_array_arguments", 0) < 100:
         floors.append("fewer than 100 histories with array-valued arguments")
-    if c.get("immediate_repeats", 0) < 500:
-        floors.append("fewer than 500 immediate repeats")
+    if c.get("immediate_repeats", 0) < 500 or c.get("immediate_repeats_with_full_output", 0) < 100:
+        floors.append("fewer than 500 immediate repeats / 100 of them with full_output")
     if c.get("cached_maps_after_update_bound", 0) < 30:
         floors.append(f"only {c.get('cached_maps_after_update_bound', 0)} cached maps after a bound value was changed (< 30)")
     if c.get("map_cache_hits_observed", 0) < 100:
